@@ -111,3 +111,39 @@ def SWEv.wants : SWEv → Nat × Nat
   | .write id stream => (id, stream)
 
 end DV
+
+/-! ### answers of several connections of one client
+
+  The client's CEA and DWA handlers sit on the state machine's `ServeMux`, which every connection
+  made through one `sm.Client` shares. `byConn`: a handler finds the waiting handshake / watchdog
+  in the context of the connection the answer arrived on (the repaired source,
+  `Gen.handshakeAnswerHandlers`); otherwise it reports to the channels of the latest handshake. -/
+namespace DV
+
+structure ShareState where
+  /-- acknowledgements waiting in each connection's channel -/
+  acks : List Nat := []
+  /-- the connection whose channels the registered handler closes over -/
+  latest : Nat := 0
+deriving Repr, DecidableEq
+
+inductive ShareEv where
+  /-- a further connection performs its handshake (and registers its handlers) -/
+  | handshake
+  /-- a successful answer arrives on connection `k` -/
+  | answer (k : Nat)
+deriving Repr, DecidableEq
+
+def ShareState.step (byConn : Bool) (s : ShareState) : ShareEv → ShareState
+  | .handshake => { acks := s.acks ++ [0], latest := s.acks.length }
+  | .answer k =>
+    let t := if byConn then k else s.latest
+    if k < s.acks.length then { s with acks := s.acks.set t (s.acks.getD t 0 + 1) } else s
+
+def ShareState.run (byConn : Bool) (s : ShareState) (es : List ShareEv) : ShareState :=
+  es.foldl (ShareState.step byConn) s
+
+/-- answers that arrived on connection `k` in a history -/
+def answersOn (k : Nat) (es : List ShareEv) : Nat := (es.filter (· == .answer k)).length
+
+end DV
